@@ -30,7 +30,7 @@ RULE = ("cases = (initial hosts-file content, backup present or not, host map / 
         "every crash point k of every single-instance case; a refused operation at every index of small cases; "
         "segment-level and random (thorough: exhaustive) interleavings of two instances; complete helper sessions through the real firewall.main() (fake packet-filter method and stdin: ROUTES, NSLIST, PORTS, GO, HOST lines, then EOF / read error / bad command) with the IPv4 and/or IPv6 teardown raising and with single file-system calls (chown, chmod, rename, close, write, open, stat, read of the first or a later HOST) refused, and with the helper's stderr/stdout failing (EIO, EPIPE, closed file) from a chosen point on at verbosity 0-3 through the real helpers.log/debug*; crash-recovery histories (a helper dies between writing its temporary and the rename, optionally the admin edits the file, a new session on the same port publishes fewer hosts and restores); a case is non-trivial "
         "when a line was filtered, a backup made, a fault or crash injected, or two instances overlapped; "
-        "distinct = distinct canonical case description")
+        "distinct = distinct canonical case description; every case of every kind additionally runs at a verbosity level from the rotation [0,0,3,0,2,0,13,1] (13 = -vvv with stderr/stdout failing with EIO) indexed by a per-run case counter shifted by the seed, through the real helpers.log/debug*, and is replayed at that level")
 MANIFEST = dict(
     level_text=("Machine-checked Lean 4 theorems (19, core Lean + Std, no sorry/axiom/native_decide) over a "
                 "statement-by-statement model of rewrite_etc_hosts / restore_etc_hosts (a resumption issuing "
@@ -113,6 +113,71 @@ def hm_tok(items):
 
 # ------------------------------------------------------------------ the instrumented sandbox
 
+# ------------------------------------------------------------------ verbosity as a dimension of every case
+
+LEVELS = [0, 0, 3, 0, 2, 0, 13, 1]      # 13 = level 3 with a stderr/stdout whose write() raises EIO
+_ROT = dict(n=0, shift=0)               # per-run case counter, shifted by the check's seed (not ctx.rng)
+_CUR = dict(level=0)                    # level of the case being run
+
+
+def rot_reset(seed):
+    _ROT['n'] = 0
+    _ROT['shift'] = seed
+
+
+def next_level():
+    lv = LEVELS[(_ROT['n'] + _ROT['shift']) % len(LEVELS)]
+    _ROT['n'] += 1
+    return lv
+
+
+def leveled(fn):
+    """Every case kind runs at a verbosity level: taken from the rotation, or given (replay)."""
+    def wrap(*a, level=None, **k):
+        if level is None:
+            level = next_level()
+        old = _CUR['level']
+        _CUR['level'] = level
+        try:
+            return fn(*a, **k)
+        finally:
+            _CUR['level'] = old
+    wrap.__name__ = fn.__name__
+    wrap.__doc__ = fn.__doc__
+    return wrap
+
+
+class _Verbosity:
+    """Around every call into the real code: sshuttle.helpers.verbose, the real helpers.log behind
+    firewall.log, and sys.stderr / sys.stdout (a sink, or at level 13 a stream failing with EIO)."""
+
+    def __init__(self, sb):
+        self.sb = sb
+
+    def __enter__(self):
+        import sys
+        import sshuttle.helpers as helpers
+        lv = self.sb.level
+        self.saved = None
+        if not lv:
+            return self
+        fw = self.sb.fw
+        self.saved = (sys.stdout, sys.stderr, helpers.verbose, fw.log)
+        stream = _DyingStream('eio', 0) if lv == 13 else _DyingStream('closed', 1 << 60)
+        helpers.verbose = 3 if lv == 13 else lv
+        fw.log = self.sb.saved['log']
+        sys.stdout = stream
+        sys.stderr = stream
+        return self
+
+    def __exit__(self, *a):
+        if self.saved is not None:
+            import sys
+            import sshuttle.helpers as helpers
+            sys.stdout, sys.stderr, helpers.verbose, self.sb.fw.log = self.saved
+        return False
+
+
 class Inst:
     """One running instance (one call of the real function) and what it is allowed to do."""
 
@@ -146,6 +211,7 @@ class Sandbox:
         self.latin = False           # undecodable case: show bytes as latin-1 text
         self.foreign_tmp = []        # rename/move sources that were not beside the hosts file
         self.fd_names = {}           # descriptors obtained through the wrapped os.open
+        self.level = _CUR['level']   # verbosity level of the case this sandbox belongs to
 
     def __enter__(self):
         import sshuttle.firewall as fw
@@ -501,7 +567,8 @@ def run_single(sb, kind, hm, port, crash_at=None, err_at=()):
     if hasattr(sb, 'prev'):
         del sb.prev
     sb.prev = sb.snap()
-    out = call_real(sb, inst, kind, hm, port)
+    with _Verbosity(sb):
+        out = call_real(sb, inst, kind, hm, port)
     ops = sb.log[n0:]
     line = '%s %d %s %s %s %s' % (kind, port, 'A' if crash_at is None else crash_at,
                                   ','.join(map(str, err_at)) or '-', '0' if sb.latin else '-', hm_tok(hm.items()))
@@ -673,11 +740,12 @@ def b2s(b):
     return None if b is None else b.decode('utf-8', 'replace')
 
 
+@leveled
 def single_case(ctx, content, bak, hm, port, mode=0o644, err_at=(), crash_all=True, kind='w',
                 stale_tmp=None, latin=False, label='single'):
     """Full run (+ every crash point) of one call on a fresh sandbox; oracle on the real files."""
     case = Case(label)
-    desc = dict(stream='single', content=opt(content), bak=opt(bak), hm=[[n, i] for n, i in hm.items()],
+    desc = dict(level=_CUR['level'], stream='single', content=opt(content), bak=opt(bak), hm=[[n, i] for n, i in hm.items()],
                 port=port, mode=mode, err_at=list(err_at), kind=kind, stale_tmp=opt(stale_tmp))
     case.desc = desc
     with Sandbox() as sb:
@@ -778,10 +846,11 @@ def single_case(ctx, content, bak, hm, port, mode=0o644, err_at=(), crash_all=Tr
     return case
 
 
+@leveled
 def session_case(ctx, content, updates, port):
     """One instance: update history then restore (optionally other instances' serial activity between)."""
     case = Case('session')
-    desc = dict(stream='session', content=opt(content), updates=[list(u) for u in updates], port=port)
+    desc = dict(level=_CUR['level'], stream='session', content=opt(content), updates=[list(u) for u in updates], port=port)
     case.desc = desc
     hm = {}
     with Sandbox() as sb:
@@ -815,10 +884,11 @@ def session_case(ctx, content, updates, port):
     return case
 
 
+@leveled
 def serial_case(ctx, content, events):
     """Several instances, rewrites not overlapping.  events: list of (port, kind, hm)."""
     case = Case('serial')
-    desc = dict(stream='serial', content=opt(content), events=[[p, k, [[n, i] for n, i in hm.items()]] for p, k, hm in events])
+    desc = dict(level=_CUR['level'], stream='serial', content=opt(content), events=[[p, k, [[n, i] for n, i in hm.items()]] for p, k, hm in events])
     case.desc = desc
     ports = sorted({p for p, _k, _h in events})
     cur = {}
@@ -869,31 +939,33 @@ def run_threads(sb, specs, sched, finish=True):
         t.c14_inst = inst
         threads[tag] = t
     sb.prev = sb.snap()
-    for tag in insts:
-        threads[tag].start()
-        insts[tag].ready.acquire()          # at its first gate, or finished
-    for tag in sched:
-        inst = insts[tag]
-        if inst.finished:
-            continue
-        inst.go.release()
-        inst.ready.acquire()
-    for tag in ('a', 'b'):
-        inst = insts[tag]
-        while not inst.finished:
-            if not finish:
-                inst.abort = True
+    with _Verbosity(sb):
+        for tag in insts:
+            threads[tag].start()
+            insts[tag].ready.acquire()          # at its first gate, or finished
+        for tag in sched:
+            inst = insts[tag]
+            if inst.finished:
+                continue
             inst.go.release()
             inst.ready.acquire()
-    for t in threads.values():
-        t.join(5)
+        for tag in ('a', 'b'):
+            inst = insts[tag]
+            while not inst.finished:
+                if not finish:
+                    inst.abort = True
+                inst.go.release()
+                inst.ready.acquire()
+        for t in threads.values():
+            t.join(5)
     return list(sb.tags), {t: insts[t].outcome for t in insts}
 
 
+@leveled
 def inter_case(ctx, content, pre, specs, sched, label='inter'):
     """pre: serial events establishing the starting state; then the two calls of `specs` interleaved."""
     case = Case(label)
-    desc = dict(stream='inter', content=opt(content), pre=[[p, k, [[n, i] for n, i in hm.items()]] for p, k, hm in pre],
+    desc = dict(level=_CUR['level'], stream='inter', content=opt(content), pre=[[p, k, [[n, i] for n, i in hm.items()]] for p, k, hm in pre],
                 specs=[[t, k, [[n, i] for n, i in hm.items()], p] for t, k, hm, p in specs], sched=''.join(sched))
     case.desc = desc
     (ta, ka, hma, pa), (tb, kb, hmb, pb) = specs
@@ -951,12 +1023,13 @@ def inter_case(ctx, content, pre, specs, sched, label='inter'):
 
 # ------------------------------------------------------------------ crash, then a new session on the same port
 
+@leveled
 def recovery_case(ctx, content, port, hm1, crash_back, hm2, admin=None, admin_edit=False, first_kind='w'):
     """A helper dies `crash_back` operations before the end of a rewrite (1 = just before the rename), leaving
     its temporary behind; optionally the admin then edits the hosts file; then a NEW session on the same port
     publishes `hm2` and restores.  The stale temporary must not leak into the hosts file."""
     case = Case('recovery')
-    desc = dict(stream='recovery', content=opt(content), port=port, hm1=[[n, i] for n, i in hm1.items()],
+    desc = dict(level=_CUR['level'], stream='recovery', content=opt(content), port=port, hm1=[[n, i] for n, i in hm1.items()],
                 crash_back=crash_back, hm2=[[n, i] for n, i in hm2.items()], admin=opt(admin),
                 admin_edit=admin_edit, first_kind=first_kind)
     case.desc = desc
@@ -1091,6 +1164,7 @@ class _DyingStream:
         return False
 
 
+@leveled
 def helper_case(ctx, content, hosts, with_v4, with_v6, fail, end='eof', exc='fatal', setup_fails=False,
                 fs_fail=(), verbose=0, log_fail=None):
     """One complete helper session through the real firewall.main() on the sandbox hosts file.
@@ -1101,8 +1175,14 @@ def helper_case(ctx, content, hosts, with_v4, with_v6, fail, end='eof', exc='fat
     stderr and stdout fail with EIO / EPIPE / ValueError(closed file) from that point on."""
     import io
     import socket
+    if not verbose and not log_fail and _CUR['level']:
+        verbose = 3 if _CUR['level'] == 13 else _CUR['level']
+        log_fail = ('eio', 0) if _CUR['level'] == 13 else None
+        from_rotation = True
+    else:
+        from_rotation = False
     case = Case('helper')
-    desc = dict(stream='helper', content=opt(content), hosts=[list(h) for h in hosts], v4=with_v4, v6=with_v6,
+    desc = dict(level=_CUR['level'], stream='helper', content=opt(content), hosts=[list(h) for h in hosts], v4=with_v4, v6=with_v6,
                 fail=sorted(fail), end=end, exc=exc, setup_fails=setup_fails, fs_fail=[list(x) for x in fs_fail],
                 verbose=verbose, log_fail=list(log_fail) if log_fail else None)
     case.desc = desc
@@ -1175,8 +1255,8 @@ def helper_case(ctx, content, hosts, with_v4, with_v6, fail, end='eof', exc='fat
     ctx.hist('helper:end=%s,fail=%s%s' % (end, ''.join(sorted(fail)) or '-',
                                           ',fs=' + '+'.join(k for k, _n in fs_fail) if fs_fail else ''))
     published = bool(hosts) and not setup_fails
-    tail = '-after-fs-error' if fs_fail else '-after-log-error' if log_fail else \
-        '-after-teardown-error' if fail else ''
+    tail = '-after-fs-error' if fs_fail else '-after-log-error' if log_fail and not from_rotation else \
+        '-after-teardown-error' if fail else '-at-verbosity-%d' % _CUR['level'] if from_rotation else ''
     if verbose or log_fail:
         ctx.hist('helper:verbose=%d,log=%s' % (verbose, '%s@%s' % tuple(log_fail) if log_fail else 'ok'))
     if published:
@@ -1257,6 +1337,7 @@ WITNESS_RESURRECT = dict(content=b'127.0.0.1 localhost\n',
 
 def gen_cases(ctx):
     rng = ctx.rng
+    rot_reset(ctx.seed)
     cases = [lib_cases(ctx)]
     # the repository's own test, first
     cases.append(single_case(ctx, b'1.2.3.3 existing\n', None, {'myhost': '1.2.3.4', 'myotherhost': '1.2.3.5'}, 10))
@@ -1529,24 +1610,28 @@ def replay(ctx, rep):
     if st == 'single':
         single_case(ctx, _unopt(case['content']), _unopt(case['bak']), _hm(case['hm']), case['port'],
                     mode=case.get('mode', 0o644), err_at=tuple(case.get('err_at', ())), kind=case.get('kind', 'w'),
-                    stale_tmp=_unopt(case.get('stale_tmp', 'N')))
+                    stale_tmp=_unopt(case.get('stale_tmp', 'N')), level=case.get('level', 0))
     elif st == 'session':
-        session_case(ctx, _unopt(case['content']), [tuple(u) for u in case['updates']], case['port'])
+        session_case(ctx, _unopt(case['content']), [tuple(u) for u in case['updates']], case['port'],
+                     level=case.get('level', 0))
     elif st == 'serial':
-        serial_case(ctx, _unopt(case['content']), [(p, k, _hm(h)) for p, k, h in case['events']])
+        serial_case(ctx, _unopt(case['content']), [(p, k, _hm(h)) for p, k, h in case['events']],
+                    level=case.get('level', 0))
     elif st == 'inter':
         inter_case(ctx, _unopt(case['content']), [(p, k, _hm(h)) for p, k, h in case['pre']],
-                   [(t, k, _hm(h), p) for t, k, h, p in case['specs']], case['sched'])
+                   [(t, k, _hm(h), p) for t, k, h, p in case['specs']], case['sched'], level=case.get('level', 0))
     elif st == 'helper':
         helper_case(ctx, _unopt(case['content']), [tuple(h) for h in case['hosts']], case['v4'], case['v6'],
                     set(case['fail']), end=case['end'], exc=case.get('exc', 'fatal'),
                     setup_fails=case.get('setup_fails', False),
                     fs_fail=[tuple(x) for x in case.get('fs_fail', [])], verbose=case.get('verbose', 0),
-                    log_fail=tuple(case['log_fail']) if case.get('log_fail') else None)
+                    log_fail=tuple(case['log_fail']) if case.get('log_fail') else None,
+                    level=case.get('level', 0))
     elif st == 'recovery':
         recovery_case(ctx, _unopt(case['content']), case['port'], _hm(case['hm1']), case['crash_back'],
                       _hm(case['hm2']), _unopt(case.get('admin', 'N')) if case.get('admin_edit') else None,
-                      admin_edit=case.get('admin_edit', False), first_kind=case.get('first_kind', 'w'))
+                      admin_edit=case.get('admin_edit', False), first_kind=case.get('first_kind', 'w'),
+                      level=case.get('level', 0))
     else:
         return False, 'unknown replay stream %r' % st
     new = ctx.violations[n0:]
